@@ -97,6 +97,7 @@ pub fn run(name: &str, a: &Args) -> Option<String> {
                 Err(_) => "E9".to_string(),
             }
         }
+        "p_dur_v" => perr(hifitime::Duration::from_str(&s_of(a.l(0))).map(|d| format!("1 {}", d.total_nanoseconds()))),
         "p_num" => {
             let form = match a.z(0) { 1 => "JD", 2 => "MJD", _ => "SEC" };
             let mut txt = format!("{form} {}{}", if a.z(1) == 1 { "-" } else { "" }, s_of(a.l(2)));
